@@ -605,6 +605,10 @@ def read_axes(np, ax, which):
                                  "ys": ys, "label": ln.get_label()})
     for c in ax.collections:
         if isinstance(c, PolyCollection):
+            if not c.get_paths():
+                # fill_between of uncertainties that are all not-a-number leaves no polygon at all
+                out["bands"].append({"xs": [], "lo": [], "hi": [], "xs_upper": [], "empty": True})
+                continue
             xs, lo, hi, xu = parse_band(np, c)
             out["bands"].append({"xs": xs, "lo": lo, "hi": hi, "xs_upper": xu})
     for c in ax.containers:
